@@ -720,6 +720,7 @@ def run(ctx):
     ]
     from harness import flowcases
     flowcases.int_dtype_unit(ctx, "C03", bijections=False, distributions=True)
+    flowcases.base_variety_unit(ctx)
 
 
 def replay(ctx, rep):
